@@ -25,6 +25,8 @@ import (
 	"sync"
 	"sync/atomic"
 
+	"github.com/charmbracelet/log"
+
 	"github.com/flamego/flamego"
 )
 
@@ -60,6 +62,31 @@ type concResp struct {
 
 type reqScoped struct{ ID, Path string }
 
+// application-level services, mapped on the Flame by CONCRETE type and asked for by INTERFACE: the injector then
+// has to search its type map for an implementor (and the request injector falls back to the shared Flame injector)
+type greeter interface{ Greet(name string) string } // two implementors registered: either may be picked,
+type greeterA struct{ salt string }                 // so both answer identically
+type greeterB struct{ salt string }
+
+func (g *greeterA) Greet(name string) string { return "hello " + name + g.salt }
+func (g *greeterB) Greet(name string) string { return "hello " + name + g.salt }
+
+type clock interface{ Tick() string } // one implementor registered
+type fixedClock struct{ t string }
+
+func (c *fixedClock) Tick() string { return c.t }
+
+type sizer interface{ Size(s string) int } // one implementor, a non-pointer type
+type lenSizer int
+
+func (l lenSizer) Size(s string) int { return len(s) + int(l) }
+
+// request-scoped service mapped by concrete type per request and asked for by interface
+type whoami interface{ Who() string }
+type reqWho struct{ id string }
+
+func (w *reqWho) Who() string { return "who=" + w.id }
+
 func echoParams(c flamego.Context) string {
 	ps := c.Params()
 	keys := make([]string, 0, len(ps))
@@ -87,11 +114,13 @@ func buildConcApp(dir string) *flamego.Flame {
 		Directory: dir, Prefix: "assets", SetETag: true,
 		CacheControl: func() string { return "max-age=60" },
 	}))
-	// a middleware with a Before hook on the response writer and a request-scoped value
+	f.Map(&greeterA{salt: "!"}, &greeterB{salt: "!"}, &fixedClock{t: "noon"}, lenSizer(1)) // by concrete type
+	// a middleware with a Before hook on the response writer and request-scoped values
 	f.Use(func(c flamego.Context) {
 		id := c.Request().Header.Get("X-Req-Id")
 		c.ResponseWriter().Before(func(w flamego.ResponseWriter) { w.Header().Set("X-Echo-Id", id) })
 		c.Map(&reqScoped{ID: id, Path: c.Request().URL.Path})
+		c.Map(&reqWho{id: id}) // concrete type; handlers ask for the interface `whoami`
 	})
 	f.AutoHead(true)
 	f.Get("/", func(c flamego.Context) string { return echo("root", c) })                                  // static shortcut
@@ -133,6 +162,29 @@ func buildConcApp(dir string) *flamego.Flame {
 	f.Get("/query", func(c flamego.Context) string {
 		return fmt.Sprintf("query|%s|%d|%v", c.Query("a", "dflt"), c.QueryInt("n"), c.QueryStrings("m"))
 	})
+	// services by interface (app level: found in the shared Flame injector; request level: in the request's own)
+	f.Get("/svc/greet/{n}", func(c flamego.Context, g greeter) string {
+		return "greet|" + g.Greet(c.Param("n")) + "|" + echoParams(c)
+	})
+	f.Get("/svc/clock/{n}", func(c flamego.Context, k clock, l *log.Logger) string {
+		l.Print("clock", "n", c.Param("n"))
+		return "clock|" + k.Tick() + "|" + echoParams(c)
+	})
+	f.Get("/svc/all/{n}", func(c flamego.Context, g greeter, k clock, z sizer, w whoami, r flamego.Render) {
+		runtime.Gosched()
+		r.PlainText(http.StatusOK, fmt.Sprintf("all|%s|%s|%d|%s|hdr=%s", g.Greet(c.Param("n")), k.Tick(), z.Size(c.Param("n")), w.Who(), c.Request().Header.Get("X-Req-Id")))
+	})
+	f.Post("/svc/size/{n}", func(c flamego.Context, z sizer, w whoami) (int, string) {
+		return http.StatusCreated, fmt.Sprintf("size|%d|%s", z.Size(c.Param("n")), w.Who())
+	})
+	f.Get("/svc/who/{n}", func(w whoami, rs *reqScoped, l *log.Logger) string {
+		l.Print("who", "id", rs.ID)
+		return "who|" + w.Who() + "|" + rs.ID
+	})
+	f.Get("/svc/log/{n}", func(c flamego.Context, l *log.Logger) (int, string) {
+		l.Print("log", "n", c.Param("n"))
+		return http.StatusOK, "log|" + echoParams(c)
+	})
 	f.NotFound(func(c flamego.Context) (int, string) { return http.StatusNotFound, echo("notfound", c) })
 	return f
 }
@@ -143,7 +195,7 @@ func concRequests(r *rand.Rand, n int) []concReq {
 	var out []concReq
 	for i := 0; i < n; i++ {
 		q := concReq{Method: "GET", Header: map[string]string{"X-Req-Id": fmt.Sprintf("r%d", i)}}
-		switch k := r.Intn(26); k {
+		switch k := r.Intn(32); k {
 		case 0:
 			q.Kind, q.Path = "static-root", "/"
 		case 1:
@@ -203,6 +255,18 @@ func concRequests(r *rand.Rand, n int) []concReq {
 			if r.Intn(3) == 0 {
 				q.Method = "HEAD"
 			}
+		case 25:
+			q.Kind, q.Path = "svc-iface-two-impl", "/svc/greet/"+w()
+		case 26:
+			q.Kind, q.Path = "svc-iface-logger", "/svc/clock/"+w()
+		case 27:
+			q.Kind, q.Path = "svc-iface-all-render", "/svc/all/"+w()
+		case 28:
+			q.Kind, q.Path, q.Method = "svc-iface-post", "/svc/size/"+w(), "POST"
+		case 29:
+			q.Kind, q.Path = "svc-request-scoped-iface", "/svc/who/"+w()
+		case 30:
+			q.Kind, q.Path = "svc-logger", "/svc/log/"+w()
 		default:
 			q.Kind, q.Path = "not-found", "/nowhere/"+w()
 			if r.Intn(2) == 0 {
@@ -258,9 +322,9 @@ func concMain(args []string) {
 			fatal(err)
 		}
 	}
-	workers, distinct, rounds := 8, 400, 3
+	workers, distinct, rounds, twins := 8, 400, 3, 8
 	if tier == "thorough" {
-		workers, distinct, rounds = 32, 1200, 5
+		workers, distinct, rounds, twins = 32, 1200, 5, 24
 	}
 	r := rand.New(rand.NewSource(seed))
 	f := buildConcApp(filepath.Join(dir, "public"))
@@ -290,23 +354,42 @@ func concMain(args []string) {
 	// as the sync.Once string caches is filled under contention), then against the Flame that served the serial pass
 	var served int64
 	var failed atomic.Bool
-	pass := func(app *flamego.Flame, label string, salt int64) {
+	var lazy []int // requests whose first service makes the framework fill something lazily (injector search, Once strings)
+	for i, q := range reqs {
+		if strings.HasPrefix(q.Kind, "svc-") || q.Kind == "urlpath" || q.Kind == "scoped" || q.Kind == "render-json" {
+			lazy = append(lazy, i)
+		}
+	}
+	// burst > 0: a short pass meant for a FRESH instance — every goroutine starts at the same instant (barrier) with a
+	// few `lazy` requests, so that first lookups overlap with other requests' reads of the same shared structures
+	pass := func(app *flamego.Flame, label string, salt int64, burst int) {
 		var once sync.Once
-		var wg sync.WaitGroup
+		var wg, ready sync.WaitGroup
 		start := make(chan struct{})
+		ready.Add(workers)
 		for wk := 0; wk < workers; wk++ {
 			order := make([]int, 0, len(reqs)*rounds/workers+1)
 			pr := rand.New(rand.NewSource(seed*1000 + salt*100 + int64(wk)))
-			for k := 0; k < rounds; k++ {
-				for _, i := range pr.Perm(len(reqs)) {
-					if (i+k)%workers == wk || pr.Intn(workers) == 0 {
-						order = append(order, i)
+			if burst > 0 {
+				for k := 0; k < 4 && len(lazy) > 0; k++ {
+					order = append(order, lazy[pr.Intn(len(lazy))])
+				}
+				for k := 0; k < burst; k++ {
+					order = append(order, pr.Intn(len(reqs)))
+				}
+			} else {
+				for k := 0; k < rounds; k++ {
+					for _, i := range pr.Perm(len(reqs)) {
+						if (i+k)%workers == wk || pr.Intn(workers) == 0 {
+							order = append(order, i)
+						}
 					}
 				}
 			}
 			wg.Add(1)
 			go func(wk int, order []int) {
 				defer wg.Done()
+				ready.Done()
 				<-start
 				for _, i := range order {
 					if failed.Load() {
@@ -329,15 +412,22 @@ func concMain(args []string) {
 				}
 			}(wk, order)
 		}
+		ready.Wait() // all goroutines exist and are parked on `start`
 		close(start)
 		wg.Wait()
 	}
-	pass(cold, "cold twin (nothing served before)", 1)
+	for t := 0; t < twins && !failed.Load(); t++ {
+		fresh := buildConcApp(filepath.Join(dir, "public"))
+		pass(fresh, fmt.Sprintf("fresh twin #%d, burst start (nothing served before)", t), int64(10+t), 24)
+	}
 	if !failed.Load() {
-		pass(f, "the Flame that served the serial pass", 2)
+		pass(cold, "cold twin (nothing served before), full mix", 1, 0)
+	}
+	if !failed.Load() {
+		pass(f, "the Flame that served the serial pass", 2, 0)
 	}
 	sum := map[string]interface{}{"result": "ok", "goroutines": workers, "distinct_requests": len(reqs), "served_concurrently": served,
-		"request_kinds": kinds, "statuses": statuses, "gomaxprocs": runtime.GOMAXPROCS(0)}
+		"request_kinds": kinds, "statuses": statuses, "gomaxprocs": runtime.GOMAXPROCS(0), "fresh_twins": twins}
 	if failed.Load() {
 		sum["result"] = "divergent"
 	}
